@@ -22,7 +22,7 @@ package core
 
 //@ pure func regOk(u *UseCase, id string) bool =
 //@     u.txStore.store[id] != nil && toplevel(u.txStore.store[id]) && txInv(u.txStore.store[id]) &&
-//@     !u.txStore.store[id].WithoutSearch && u.txStore.store[id].gid == id
+//@     !u.txStore.store[id].WithoutSearch && u.txStore.store[id].gid == id && !u.txStore.store[id].tinPool
 
 // every version node that sits in a transaction's list has a partner in the all-store list of its key, with the same value
 //@ pure func linkInv(u *UseCase) bool =
@@ -74,7 +74,7 @@ package core
 //@   requires txid:   f.TxId != ""
 //@   modifies model.File.*, core.Node[model.File].next, core.Node[model.File].prev, core.Node[model.File].link, core.Node[model.File].linkOf, core.Node[model.File].owner, core.Node[model.File].idx, core.Node[model.File].inPool,
 //@            core.List[model.File].elems, core.file.arr, core.file.withoutSearch, core.file.gtx, core.file.gkey, mem[*core.Node[model.File]], backing.owner,
-//@            core.Transaction.store, core.Transaction.gid, core.Transactions.store, map[string]*core.file, map[string]*core.Transaction, mapref.mowner,
+//@            core.Transaction.store, core.Transaction.gid, core.Transaction.tinPool, core.Transactions.store, map[string]*core.file, map[string]*core.Transaction, mapref.mowner,
 //@            world.recSeq, world.recTx, world.recKey, world.hasRec, world.logSeq, world.logCid, cell[uint64]
 //@   ensures  inv:     ucInv(u)
 //@   ensures  counter: sequence.seq > old(sequence.seq)
@@ -137,7 +137,7 @@ package core
 //@   requires inv:    ucInv(u)
 //@   modifies model.File.*, core.Node[model.File].next, core.Node[model.File].prev, core.Node[model.File].link, core.Node[model.File].linkOf, core.Node[model.File].owner, core.Node[model.File].idx, core.Node[model.File].inPool,
 //@            core.List[model.File].elems, core.List[model.File].base, core.file.arr, core.file.withoutSearch, core.file.gtx, mem[*core.Node[model.File]], mem[*core.file],
-//@            core.Transaction.gid, map[string]*core.file, map[string]*core.Transaction
+//@            core.Transaction.gid, core.Transaction.tinPool, map[string]*core.file, map[string]*core.Transaction
 //@   ensures  inv:    ucInv(u)
 //@   ensures  gone:   !has(u.txStore.store, txId)
 //@   ensures  regs:   forall id string :: id != txId ==> has(u.txStore.store, id) == old(has(u.txStore.store, id)) && (has(u.txStore.store, id) ==> u.txStore.store[id] == old(u.txStore.store[id]))
@@ -171,14 +171,14 @@ package core
 //@   hint after (*file).PopFront#2 seqs:   seqInv()
 //@ loop (*UseCase).DeleteTx#1
 //@   invariant inv:       ucInv(u) && tx != nil && toplevel(tx) && txInv(tx) && !tx.WithoutSearch && tx.store == $range
-//@   invariant detached:  !has(u.txStore.store, txId) && forall id string :: has(u.txStore.store, id) ==> u.txStore.store[id] != tx
+//@   invariant detached:  !has(u.txStore.store, txId) && !tx.tinPool && forall id string :: has(u.txStore.store, id) ==> u.txStore.store[id] != tx
 //@   invariant regs:      forall id string :: id != txId ==> has(u.txStore.store, id) == old(has(u.txStore.store, id)) && (has(u.txStore.store, id) ==> u.txStore.store[id] == old(u.txStore.store[id]))
 //@   invariant emptied:   forall k string :: seen(k) ==> has(tx.store, k) && len(tx.store[k].l.elems) == 0
 //@   invariant pending:   forall k string :: has(tx.store, k) && !seen(k) ==> forall i int :: 0 <= i && i < len(tx.store[k].l.elems) ==> linked(u, tx.store[k].l.elems[i])
 //@   invariant others:    forall g *core.file :: old(g.gtx) != nil && old(g.gtx) != &u.allStore && old(g.gtx) != tx ==> g.l.elems == old(g.l.elems)
 //@ loop (*UseCase).DeleteTx#2
 //@   invariant inv:       ucInv(u) && tx != nil && toplevel(tx) && txInv(tx) && !tx.WithoutSearch && tx.store == $range
-//@   invariant detached:  !has(u.txStore.store, txId) && forall id string :: has(u.txStore.store, id) ==> u.txStore.store[id] != tx
+//@   invariant detached:  !has(u.txStore.store, txId) && !tx.tinPool && forall id string :: has(u.txStore.store, id) ==> u.txStore.store[id] != tx
 //@   invariant regs:      forall id string :: id != txId ==> has(u.txStore.store, id) == old(has(u.txStore.store, id)) && (has(u.txStore.store, id) ==> u.txStore.store[id] == old(u.txStore.store[id]))
 //@   invariant cur:       f != nil && has(tx.store, f.gkey) && tx.store[f.gkey] == f && seen(f.gkey)
 //@   invariant emptied:   forall k string :: seen(k) && k != f.gkey ==> has(tx.store, k) && len(tx.store[k].l.elems) == 0
@@ -272,7 +272,7 @@ package core
 //@   requires nolog:  len(world.logSeq) == 0 && len(world.logCid) == 0
 //@   modifies model.File.*, core.Node[model.File].next, core.Node[model.File].prev, core.Node[model.File].link, core.Node[model.File].linkOf, core.Node[model.File].owner, core.Node[model.File].idx,
 //@            core.Node[model.File].inPool, core.List[model.File].elems, core.List[model.File].base, core.file.arr, core.file.withoutSearch, core.file.gtx, core.file.gkey,
-//@            mem[*core.Node[model.File]], mem[*core.file], backing.owner, core.Transaction.store, core.Transaction.gid, core.Transactions.store,
+//@            mem[*core.Node[model.File]], mem[*core.file], backing.owner, core.Transaction.store, core.Transaction.gid, core.Transaction.tinPool, core.Transactions.store,
 //@            map[string]*core.file, map[string]*core.Transaction, mapref.mowner,
 //@            world.recSeq, world.recTx, world.recKey, world.hasRec, world.logSeq, world.logCid, cell[uint64]
 //@   ensures  inv:    ucInv(u)
@@ -342,6 +342,7 @@ package core
 //@   hint after (*file).PopFront#2 all:       txInv(&u.allStore)
 //@   hint after (*file).PopFront#2 regs:      forall id string :: has(u.txStore.store, id) ==> regOk(u, id)
 //@ loop (*UseCase).UpdateTx#1
+//@   invariant pool:      tx != nil && !tx.tinPool
 //@   invariant inv:       ucInv(u) && tx != nil && toplevel(tx) && txInv(tx) && !tx.WithoutSearch && tx.store == $range
 //@   invariant detached:  !has(u.txStore.store, oldTxId) && forall id string :: has(u.txStore.store, id) ==> u.txStore.store[id] != tx
 //@   invariant target:    newTx != nil && has(u.txStore.store, newTxId) && u.txStore.store[newTxId] == newTx && newTx != tx
@@ -355,6 +356,7 @@ package core
 //@   invariant keys:      forall k string :: has(tx.store, k) == old(has(u.txStore.store[oldTxId].store, k))
 //@   invariant nolog:     len(world.logSeq) == 0 && len(world.logCid) == 0
 //@ loop (*UseCase).UpdateTx#2
+//@   invariant pool:      tx != nil && !tx.tinPool
 //@   invariant inv:       ucInv(u) && tx != nil && toplevel(tx) && txInv(tx) && !tx.WithoutSearch && tx.store == $range
 //@   invariant detached:  !has(u.txStore.store, oldTxId) && forall id string :: has(u.txStore.store, id) ==> u.txStore.store[id] != tx
 //@   invariant target:    newTx != nil && has(u.txStore.store, newTxId) && u.txStore.store[newTxId] == newTx && newTx != tx
@@ -372,6 +374,7 @@ package core
 //@   invariant nolog:     len(world.logSeq) == 0 && len(world.logCid) == 0
 // the durable batch: every version is re-sequenced and handed to the repository with the number it will be linked under
 //@ loop (*UseCase).UpdateTx>(*UseCase).UpdateTx$4#1
+//@   invariant pool:      tx != nil && !tx.tinPool
 //@   invariant idx:       -1 <= rangeindex && rangeindex + 1 <= len(files)
 //@   decreases len(files) - rangeindex
 //@   invariant inv:       ucInv(u)
@@ -380,6 +383,7 @@ package core
 //@   invariant above:     forall j int :: 0 <= j && j <= rangeindex ==> files[j].Seq <= sequence.seq && forall m *core.Node[model.File] :: m.owner != nil ==> m.v.Seq < files[j].Seq
 //@   invariant incr:      forall a, b int :: 0 <= a && a < b && b <= rangeindex ==> files[a].Seq < files[b].Seq
 //@ loop (*UseCase).UpdateTx#3
+//@   invariant pool:      tx != nil && !tx.tinPool
 //@   invariant idx:       -1 <= rangeindex && rangeindex + 1 <= len(files)
 //@   decreases len(files) - rangeindex
 //@   invariant inv:       ucInv(u) && newTx != nil && has(u.txStore.store, newTxId) && u.txStore.store[newTxId] == newTx && !has(u.txStore.store, oldTxId)
@@ -392,6 +396,7 @@ package core
 //@   invariant txempty:   tx != nil && toplevel(tx) && txInv(tx) && (forall k string :: has(tx.store, k) ==> len(tx.store[k].l.elems) == 0) && forall id string :: has(u.txStore.store, id) ==> u.txStore.store[id] != tx
 // the deferred cleanup: every popped node's partner is unlinked from the all-store and both are released
 //@ loop (*UseCase).UpdateTx>(*UseCase).UpdateTx$2#1
+//@   invariant pool:      tx != nil && !tx.tinPool
 //@   invariant idx:       -1 <= rangeindex && rangeindex + 1 <= len(freeNodes)
 //@   decreases len(freeNodes) - rangeindex
 //@   invariant inv:       ucInv(u) && !has(u.txStore.store, oldTxId)
